@@ -49,6 +49,11 @@ private def splitOp (op : String) : Option (String × Bool) :=
   else if op.startsWith "smr_" then some ((op.drop 4).toString, false)
   else none
 
+private def natOfBitsS (v : List Bool) : Nat := v.foldr (fun b acc => 2 * acc + b.toNat) 0
+
+private def showVecsS (vs : List (List Bool)) : String :=
+  if vs.isEmpty then "-" else ",".intercalate (vs.map (fun v => showHexS (natOfBitsS v)))
+
 private def parseSparseS (ncols : Nat) (s : String) : Option (List (List Nat)) :=
   if ncols = 0 then (if s = "-" then some [] else none)
   else do
@@ -104,7 +109,12 @@ def handleGf2Small : Handler
         match Ymq.Gf2Lanczos.lanczosLoop dbg b ay 100000 st [] with
         | none => some "panic"
         | some (st', its) =>
-          some ("|".intercalate (its.map (fun it => s!"{showHexS it.1}/{showMat it.2.1}/{showMat it.2.2}") ++ [showMat st'.y]))
+          -- then the final stage on the final Y: the whole of `kernelLanczos`
+          let fin := match Ymq.Gf2.lanczosFinal nrows cols st'.y with
+            | none => "panic"
+            | some vs => showVecsS vs
+          some ("|".intercalate (its.map (fun it => s!"{showHexS it.1}/{showMat it.2.1}/{showMat it.2.2}") ++ [showMat st'.y])
+            ++ "#" ++ fin)
     | _, _ => none
   | _ => none
 
